@@ -118,7 +118,8 @@ def gen_plan(seed, tier="quick"):
         "sched_seed": r.randrange(1 << 30),
         "io_mode": r.random() < 0.4,          # pre-emption decisions only around lines that touch files / store into arrays
         # hold one worker at one of its file-touching lines until all others have finished
-        "delay": ({"tf": r.random(), "ef": r.random(), "where": r.choice(["end", "end", "start", "any"])} if r.random() < 0.4 else None),
+        "delay": ({"tf": r.random(), "ef": r.random(), "sf": r.random(), "occ": r.choice(["first", "first", "last", "any"]),
+                   "where": r.choice(["end", "start", "any", "site", "site", "site"])} if r.random() < 0.4 else None),
         "trace": None,
     }
     return plan
@@ -134,18 +135,6 @@ def _reject(plan):
     longer than that (every recording of the history, incl. the first run of an append)."""
     shortest = min(plan["ns"], plan["ns_first"]) if plan["append"] else plan["ns"]
     return bool(plan["reject"]) and shortest >= 12000
-
-
-def _delay_at(d, cnt):
-    """Index of the file-touching line at which the task is held: races cluster where a task sets itself up
-    (check-then-act on shared files) and where it merges its results, so those windows get most of the weight."""
-    w = d.get("where", "any")
-    span = min(8, cnt)
-    if w == "end":
-        return cnt - 1 - int(d["ef"] * span)
-    if w == "start":
-        return int(d["ef"] * span)
-    return int(d["ef"] * cnt)
 
 
 def _isz(plan):
@@ -228,7 +217,7 @@ def _sim_run(plan, binf, out, nproc, append, W, schedule):
     finally:
         SIM.active = False
     return {"trace": list(SCHED.trace), "extents": SIM.extents, "events": SIM.events, "err": err,
-            "tasks": list(SCHED.task_log), "io_counts": dict(SCHED.io_counts)}
+            "tasks": list(SCHED.task_log), "io_counts": dict(SCHED.io_counts), "io_sites": {k: list(v) for k, v in SCHED.io_sites.items()}}
 
 
 def _real_joblib_run(plan, binf, out, W):
@@ -259,14 +248,14 @@ def _count_io(plan):
     def child(report):
         base = new_scratch("c06cnt")
         try:
-            report({"io_counts": _run(dict(plan, count_only=True), base)})
+            report({"io_sites": _run(dict(plan, count_only=True), base)})
         finally:
             rm_scratch(base)
 
     msgs, _ = run_child(child, timeout=600)
     for m in msgs:
-        if "io_counts" in m:
-            return {int(k): v for k, v in m["io_counts"].items()}
+        if "io_sites" in m:
+            return {int(k): v for k, v in m["io_sites"].items()}
     return {}
 
 
@@ -298,8 +287,7 @@ def sweep_plans(tier, verif_seed):
         stride = p["nbatch"] - 2 * T
         p["ns"] = min(40000, max(1500, p["nproc"] * r.choice([1, 2, 2, 3]) * stride + r.randrange(0, stride)))
         p["saturate"] = [[max(0, min(p["ns"] - 2, (p["ns"] // p["nproc"]) - 10)), min(p["ns"], (p["ns"] // p["nproc"]) + 40), 0.5]] if r.random() < 0.7 else []
-        counts = _count_io(p)
-        cand = [(t, e) for t in sorted(counts) for e in range(counts[t])]
+        cand = sched.hold_candidates(_count_io(p))
         if tier == "quick":
             cand = sorted(r.sample(cand, min(len(cand), 24)))
         for t, e in cand:
@@ -359,7 +347,7 @@ def _run(plan, base):
         od = base / "out_cnt"
         od.mkdir()
         rp = _sim_run(plan, binf, od / "destriped.bin", plan["nproc"], False, W, {"count_io": True})
-        return {} if rp["err"] else rp["io_counts"]
+        return {} if rp["err"] else rp["io_sites"]
     log = []
     stats = {"faults": {}, "probes": {}, "outcomes": {}, "distinct": [], "steps": 0, "config": {}}
     viol = None
@@ -445,8 +433,9 @@ def _run(plan, base):
                 rp = _sim_run(plan, binf, pre / "destriped.bin", nproc, False, W, {"count_io": True})
                 t = min(nproc - 1, int(plan["delay"]["tf"] * nproc))
                 cnt = rp["io_counts"].get(t, 0)
+                sites = rp["io_sites"].get(t, [])
                 if cnt and not rp["err"]:
-                    schedule = dict(schedule, delay={"task": t, "at": _delay_at(plan["delay"], cnt)})
+                    schedule = dict(schedule, delay={"task": t, "at": sched.hold_index(plan["delay"], sites)})
                     probe("one_worker_held_at_a_file_touching_line")
             res = _sim_run(plan, binf, out, nproc, plan["append"], W, schedule)
             stats["steps"] += sum(t[1] for t in res["trace"])
